@@ -241,6 +241,11 @@ theorem toggles_invalidate (T : Term) (s : St) (op : Op) (hw : s.win.ok)
     (`_cell_size_cache[:] = terminal_size + cell_size`, read off the AST), not under a re-read one -/
 theorem generated_store_key : Generated.storeKeyIsFirstRead = true := by decide
 
+/-- …and that read is lexically inside the `with _cell_size_lock` block: a lookup that has to wait
+    for the lock reads the size only once it has it, so the key (and divisor) it uses is the size
+    current while it measures — the model's lookup (`getCellSize`) is atomic for exactly this reason -/
+theorem generated_size_read_locked : Generated.sizeReadUnderLock = true := by decide
+
 /-- LOOKUP RACE.  A resize to a window with a different size in cells that arrives at **any** point
     of a lookup (after the size read, after the ioctl, after the query was written), from **any**
     state: whatever that overtaken call measured, it is filed under the size read first, so it is
